@@ -1,12 +1,240 @@
-import RtenVerif.Model.TensorBounds
-import RtenVerif.Lemmas.Overlap
+import RtenVerif.Lemmas.TensorBounds
+import RtenVerif.Props.C08
 
+/-!
+# C06 — Safe tensor APIs never access memory out of bounds or alias mutably
+
+Theorems over `RtenVerif/Model/TensorBounds.lean` (model of the size / offset arithmetic of
+`rten-tensor`'s `layout.rs`, `tensor.rs`, `overlap.rs`, `storage.rs`).  `dims` is the list of
+`(size, stride)` pairs of a layout; `ValidIdx dims idx` (from `Lemmas/Overlap.lean`) says that
+`idx` has the right rank and every component is in range.
+
+* **T1** (ideal) every valid index maps below `min_data_len`.
+* **T2** (ideal) constructor soundness: every accepted tensor has `min_data_len ≤ |storage|`, so
+  every valid index addresses an element of the storage; tensors with mutable storage have
+  passed the overlap check, so distinct valid indices address distinct elements (C08); the two
+  halves of `split_at_mut` address disjoint element sets inside their own storage ranges.
+* **T3** (machine) the `UInt64` constructors accept exactly what the ideal ones accept — only
+  layouts whose ideal `len` and `min_data_len` are `≤ isize::MAX` — and on every accepted
+  layout the wrap-around arithmetic equals the ideal arithmetic.  For the code *before* the
+  fix T3 is false; the witnesses are kept (`c06_T3_old_false_*`).
+-/
 namespace RtenVerif.TensorBounds
 open RtenVerif.Overlap
 
-/-- placeholder witness (replaced below as the proofs land). -/
-theorem c06_T3_old_false :
-    M.Old.tryFromData [4294967296, 4294967296] 0 = .ok [(4294967296, 4294967296), (4294967296, 1)] := by
+/-! ## T1 -/
+
+/-- **C06.T1** (`TrustedLayout` promise, ideal integers): for every layout, every valid index
+maps to an offset `< min_data_len`. -/
+theorem c06_T1_offset_lt_min_data_len (dims : List (Nat × Nat)) (idx : List Nat)
+    (h : ValidIdx dims idx) : offset dims idx < minDataLen dims := by
+  unfold minDataLen
+  rw [valid_hasZero h]
+  have := valid_offset_le h
+  simp only [Bool.false_eq_true, if_false]
+  omega
+
+/-- T1 in terms of the executable `Layout::offset` model: whatever it returns is in range. -/
+theorem c06_T1_offsetOf (dims : List (Nat × Nat)) (idx : List Nat) (o : Nat)
+    (h : offsetOf dims idx = some o) : o < minDataLen dims := by
+  unfold offsetOf at h
+  split at h
+  · next hv =>
+    cases h
+    exact c06_T1_offset_lt_min_data_len dims idx ((validIdx_iff _ _).mp hv)
+  · cases h
+
+/-- Non-vacuity: a transposed, stepped layout and its last element. -/
+example : ValidIdx [(3, 2), (4, 8)] [2, 3] ∧ offset [(3, 2), (4, 8)] [2, 3] = 28 ∧
+    minDataLen [(3, 2), (4, 8)] = 29 := by
+  refine ⟨.cons (by omega) (.cons (by omega) .nil), by decide, by decide⟩
+
+/-! ## T2: constructor soundness -/
+
+/-- The invariant every constructor establishes between a layout, the length `n` of the
+storage it is paired with, and the storage's mutability. -/
+structure Accepted (dims : List (Nat × Nat)) (n : Nat) (mutable : Bool) : Prop where
+  /-- the element count, counted over the non-empty dimensions, fits `isize` -/
+  shape_fits : prodNZ (shapeOf dims) ≤ isizeMax
+  /-- the largest offset fits `isize` -/
+  offset_fits : maxOffset dims < isizeMax
+  /-- the storage is long enough -/
+  storage_long_enough : minDataLen dims ≤ n
+  /-- mutable storage only with layouts that passed the overlap check -/
+  no_overlap : mutable = true → mayOverlap dims = false
+
+/-- **C06.T2a** every valid index of an accepted tensor addresses an element of its storage. -/
+theorem c06_T2_in_bounds {dims : List (Nat × Nat)} {n : Nat} {m : Bool} (acc : Accepted dims n m)
+    {idx : List Nat} (h : ValidIdx dims idx) : offset dims idx < n :=
+  Nat.lt_of_lt_of_le (c06_T1_offset_lt_min_data_len dims idx h) acc.storage_long_enough
+
+/-- **C06.T2b** in an accepted tensor with mutable storage, two different valid indices never
+address the same element, so the `&mut` obtained for them (`get_mut`, `IndexMut`) do not
+alias.  (C08.T1 applied to the overlap check the constructors ran.) -/
+theorem c06_T2_no_alias {dims : List (Nat × Nat)} {n : Nat} (acc : Accepted dims n true)
+    {i j : List Nat} (hi : ValidIdx dims i) (hj : ValidIdx dims j) (hne : i ≠ j) :
+    offset dims i ≠ offset dims j := fun h =>
+  hne (c08_no_overlap_injective dims i j (acc.no_overlap rfl) hi hj h)
+
+theorem accepted_of_checked {dims : List (Nat × Nat)} {n : Nat} {m : Bool}
+    (h1 : (checkedMinDataLen dims).isSome) (h2 : minDataLen dims ≤ n)
+    (h3 : m = true → mayOverlap dims = false) : Accepted dims n m := by
+  rw [checkedMinDataLen_eq] at h1
+  split at h1
+  · next h => exact ⟨h.1, h.2, h2, h3⟩
+  · cases h1
+
+/-- **C06.T2c** `try_from_data` (owning / mutable storage): accepted ⇒ invariant, and the storage
+length is exactly the element count. -/
+theorem c06_T2_tryFromData {shape : List Nat} {n : Nat} {l : List (Nat × Nat)}
+    (h : tryFromData shape n = .ok l) :
+    l = contigDims shape ∧ Accepted l n true ∧ len l = n ∧ minDataLen l = n := by
+  unfold tryFromData at h
+  split at h
+  · cases h
+  · next h1 =>
+    split at h
+    · cases h
+    · next h2 =>
+      cases h
+      rw [checkedShapeLen_eq] at h1
+      have hfit : prodNZ shape ≤ isizeMax := by
+        by_cases hp : prodNZ shape ≤ isizeMax
+        · exact hp
+        · simp [hp] at h1
+      have hmo := maxOffset_contig_lt shape
+      have hn : minDataLen (contigDims shape) = n := by
+        by_cases hq : minDataLen (contigDims shape) = n
+        · exact hq
+        · exact absurd hq h2
+      refine ⟨rfl, ⟨?_, ?_, ?_, fun _ => mayOverlap_contig shape⟩, ?_, hn⟩
+      · rw [shapeOf_contigDims]; exact hfit
+      · omega
+      · omega
+      · rw [len_contig, ← hn, minDataLen_contig]
+
+/-- `from_data` accepts exactly what `try_from_data` accepts. -/
+theorem c06_T2_fromData {shape : List Nat} {n : Nat} {l : List (Nat × Nat)}
+    (h : fromData shape n = .ok l) : Accepted l n true ∧ len l = n := by
+  unfold fromData at h
+  split at h
+  · next l' h' =>
+    cases h
+    have := c06_T2_tryFromData h'
+    exact ⟨this.2.1, this.2.2.1⟩
+  · cases h
+
+theorem fromShapeAndStrides_ok {dims l : List (Nat × Nat)} {d : Bool}
+    (h : fromShapeAndStrides dims d = .ok l) :
+    l = dims ∧ (checkedMinDataLen dims).isSome ∧ (d = true → mayOverlap dims = false) := by
+  unfold fromShapeAndStrides at h
+  split at h
+  · cases h
+  · next h1 =>
+    split at h
+    · cases h
+    · next h2 =>
+      cases h
+      refine ⟨rfl, ?_, ?_⟩
+      · cases hc : checkedMinDataLen dims <;> simp_all
+      · intro hd
+        subst hd
+        simpa using h2
+
+/-- **C06.T2d** `from_data_with_strides` (owning / mutable storage, `DisallowOverlap`). -/
+theorem c06_T2_fromDataWithStrides {dims l : List (Nat × Nat)} {n : Nat}
+    (h : fromDataWithStrides dims n = .ok l) : l = dims ∧ Accepted l n true := by
+  unfold fromDataWithStrides at h
+  split at h
+  · cases h
+  · next l' h' =>
+    obtain ⟨rfl, h1, h3⟩ := fromShapeAndStrides_ok h'
+    split at h
+    · cases h
+    · next h2 =>
+      cases h
+      exact ⟨rfl, accepted_of_checked h1 (by omega) h3⟩
+
+/-- **C06.T2e** `from_slice_with_strides` (immutable view, `AllowOverlap`). -/
+theorem c06_T2_fromSliceWithStrides {dims l : List (Nat × Nat)} {n : Nat}
+    (h : fromSliceWithStrides dims n = .ok l) : l = dims ∧ Accepted l n false := by
+  unfold fromSliceWithStrides at h
+  split at h
+  · cases h
+  · next l' h' =>
+    obtain ⟨rfl, h1, _⟩ := fromShapeAndStrides_ok h'
+    split at h
+    · cases h
+    · next h2 =>
+      cases h
+      exact ⟨rfl, accepted_of_checked h1 (by omega) (fun h => by cases h)⟩
+
+/-- **C06.T2f** `from_storage_and_layout` with an arbitrary layout value (e.g. after
+`resize_dim`) and mutable or immutable storage. -/
+theorem c06_T2_fromStorageAndLayout {dims l : List (Nat × Nat)} {n : Nat} {m : Bool}
+    (h : fromStorageAndLayout dims n m = .ok l) : l = dims ∧ Accepted l n m := by
+  unfold fromStorageAndLayout at h
+  split at h
+  · cases h
+  · next k hk =>
+    split at h
+    · cases h
+    · next h2 =>
+      split at h
+      · cases h
+      · next h3 =>
+        cases h
+        have hk' := hk
+        rw [checkedMinDataLen_eq] at hk'
+        split at hk'
+        · cases hk'
+          refine ⟨rfl, accepted_of_checked (by simp [hk]) (by omega) ?_⟩
+          intro hm
+          subst hm
+          simpa using h3
+        · cases hk'
+
+/-- Non-vacuity: each constructor accepts a non-trivial tensor (a 2×3 matrix; a transposed,
+stepped 3×4 view of 29 elements; a broadcast immutable view), and rejects what it should. -/
+example : tryFromData [2, 3] 6 = .ok [(2, 3), (3, 1)] ∧ tryFromData [2, 3] 5 = .error .mismatch ∧
+    fromDataWithStrides [(3, 2), (4, 8)] 29 = .ok [(3, 2), (4, 8)] ∧
+    fromDataWithStrides [(3, 2), (4, 8)] 28 = .error .tooShort ∧
+    fromDataWithStrides [(5, 1), (5, 0)] 5 = .error .overlap ∧
+    fromSliceWithStrides [(5, 1), (5, 0)] 5 = .ok [(5, 1), (5, 0)] ∧
+    fromStorageAndLayout [(5, 1), (5, 0)] 5 true = .error .panic ∧
+    fromStorageAndLayout [(5, 1), (5, 0)] 5 false = .ok [(5, 1), (5, 0)] := by decide
+
+/-! ## T3: negation witnesses for the code before the fix -/
+
+/-- **C06.T3 is false for the unfixed code (1)**: `Tensor::try_from_data(&[2^32, 2^32], vec![])`
+is accepted by the wrap-around arithmetic (the product wraps to 0), although the ideal element
+count is `2^64 > isize::MAX`; the valid index `[1, 1]` then maps to offset `2^32 + 1` of an
+empty storage.  Replayed on the real crate by the harness (request `c=tfd shape=4294967296,4294967296 len=0`). -/
+theorem c06_T3_old_false_len :
+    M.Old.tryFromData [4294967296, 4294967296] 0 = .ok [(4294967296, 4294967296), (4294967296, 1)] ∧
+    len (M.toN [(4294967296, 4294967296), (4294967296, 1)]) = 18446744073709551616 ∧
+    M.offsetOf [(4294967296, 4294967296), (4294967296, 1)] [1, 1] = some 4294967297 := by
+  decide
+
+/-- **C06.T3 is false for the unfixed code (2)**: shape `[3, 2]`, strides `[2^63, 1]` and two
+elements of storage pass `from_data_with_strides`: `(3-1)·2^63` wraps to 0 both in the overlap
+check and in `min_data_len` (machine value 2, ideal value `2^64 + 2`); the valid index `[1, 0]`
+maps to offset `2^63`. -/
+theorem c06_T3_old_false_stride :
+    M.Old.fromDataWithStrides [(3, 9223372036854775808), (2, 1)] 2 =
+      .ok [(3, 9223372036854775808), (2, 1)] ∧
+    M.minDataLen [(3, 9223372036854775808), (2, 1)] = 2 ∧
+    minDataLen (M.toN [(3, 9223372036854775808), (2, 1)]) = 18446744073709551618 ∧
+    M.offsetOf [(3, 9223372036854775808), (2, 1)] [1, 0] = some 9223372036854775808 := by
+  decide
+
+/-- The fixed constructors reject both witnesses. -/
+theorem c06_T3_fixed_rejects_witnesses :
+    M.tryFromData [4294967296, 4294967296] 0 = .error .mismatch ∧
+    M.fromData [4294967296, 4294967296] 0 = .error .panic ∧
+    M.fromDataWithStrides [(3, 9223372036854775808), (2, 1)] 2 = .error .tooShort ∧
+    M.fromSliceWithStrides [(3, 9223372036854775808), (2, 1)] 2 = .error .tooShort ∧
+    M.fromStorageAndLayout [(3, 9223372036854775808), (2, 1)] 2 true = .error .panic := by
   decide
 
 end RtenVerif.TensorBounds
